@@ -18,6 +18,7 @@ def main(tier):
     asserts.parallel_arrays(P, Pd, rep, R)
     n1 = asserts.debug_only_checks(P, Pd, rep, R)
     rep.floor("A1", n1, 8, "debug-only assertions in parse-time code examined (debug view)")
+    rep.attempt(asserts.indexed_store_bounds, P, rep)
     asserts.input_indexed_elements(P, rep)
     asserts.schema_required(P, rep)
     asserts.schema_closed(P, rep)
